@@ -209,9 +209,11 @@ package bitcoin_reader
 //@   params repo, ctx, header
 //@   ensures ghostv("verifyOK", repo) == ite(result == nil, 1, 0)
 //@   modifies ghost("verifyOK")
+// The headers repository is a separate object graph: a submission changes repository, branch and header-data
+// objects, the height maps, accumulated-work integers and the subscriber channels, not the node or the message.
 //@ iface github.com/tokenized/bitcoin_reader.HeaderRepository.ProcessHeader
 //@   params repo, ctx, header
-//@   modifies allheap
+//@   modifies typesof(headers), allmaps(map[bitcoin.Hash32]int), allchans(*wire.BlockHeader), allbig
 //@ iface github.com/tokenized/bitcoin_reader.HeaderRepository.HashHeight
 //@   params repo, hash
 //@   modifies nothing
@@ -288,6 +290,23 @@ package bitcoin_reader
 //@ iface github.com/tokenized/bitcoin_reader.HeaderRepository.Height
 //@   params repo
 //@   modifies nothing
+
+// handleHeadersTrack: every payload byte is read through the counting tee, so the deferred discard consumes exactly
+// the rest of the declared length whatever the loop did (early return, interrupt, all headers read).
+//@ func (*BitcoinNode).handleHeadersTrack
+//@   requires nodeOK(n) && header != nil && r != nil
+//@   ensures [C14.framing] result == nil && !failed(r) && old(flag(n.isReady)) ==> consumed(r) == old(consumed(r)) + old(header.Length)
+//@   ensures [C14.framing-not-ready] !old(flag(n.isReady)) ==> consumed(r) == old(consumed(r))
+//@   assumepre counter-not-ahead
+//@   modifies allheap, reads(r), ghost("msgs"), ghost("stops"), allchans(*wire.BlockHeader)
+//@   loop 1
+//@     modifies allheap, reads(r), ghost("msgs"), ghost("stops"), allchans(*wire.BlockHeader)
+//@     invariant count(counter) == consumed(r0) - old(consumed(r0)) && (failed(r) ==> failed(r0))
+//@     invariant header.Length == old(header.Length)
+//@   loop 2
+//@     modifies allelems(fmt.Stringer)
+//@     invariant (-1 <= rangeindex && rangeindex < len(lastHeaderRequest)) || (len(lastHeaderRequest) == 0 && rangeindex == -1)
+//@     invariant count(counter) == consumed(r0) - old(consumed(r0)) && (failed(r) ==> failed(r0)) && header.Length == old(header.Length) && len(locatorHashes) == len(lastHeaderRequest)
 
 //@ functype NodeHasDataFunction
 //@   params ctx, node
